@@ -204,3 +204,20 @@ Proof.
   - rewrite lift_seq_frame. split; [reflexivity|]. cbn [snd]. apply weq_upd.
   - split; [reflexivity|]. cbn [snd]. apply weq_upd.
 Qed.
+
+(* ---- the two library contracts of the `for` simulation (Proofs/C01for.v) hold for the combined library ---- *)
+From BS Require Import Proofs.C01for.
+
+Lemma libfull_arrayLength cfg : arrayLength_contract (libfull cfg).
+Proof.
+  intros cb l w elems H.
+  change (libfull cfg cb ARRLEN [VArr l] w) with (libcore cfg cb ARRLEN [VArr l] w).
+  apply libcore_arrayLength. exact H.
+Qed.
+
+Lemma libfull_arrayGet cfg : arrayGet_contract (libfull cfg).
+Proof.
+  intros cb l i w elems v H Hi.
+  change (libfull cfg cb ARRGET [VArr l; int_v i] w) with (libcore cfg cb ARRGET [VArr l; int_v i] w).
+  apply (libcore_arrayGet cfg cb l i w elems v H Hi).
+Qed.
